@@ -41,6 +41,9 @@ def real_flow_kind(exc) -> Optional[str]:
         return "unresolvable-parameter"
     if name == "TypeError" and "Incompatible data type" in msg:
         return "type-gate"
+    if name == "KeyError" and ("Invalid suppressed key" in msg or "Invalid context key" in msg):
+        # the node removed / wrote a key other than the ones it declares - and inspection reports the declared ones
+        return "declared-keys-are-not-the-keys-the-node-touches"
     if name == "InvalidNodeParameterError":
         return "unknown-parameter"
     if name in ("PipelineConfigurationError", "UnknownProcessorError"):
